@@ -138,6 +138,8 @@ impl Exec {
             } else {
                 break;
             };
+            // every explored schedule is progress for the watchdog (a schedule that blocks has its own 15 s bound in run_conc)
+            PROGRESS.fetch_add(1, Ordering::SeqCst);
             self.rig.restore(&ckpt, node_ckpt.clone());
             // restart from the checkpoint WITHOUT the catch-up poll: blocks mined and not yet polled belong to the concurrent section
             if !self.rig.boot() {
